@@ -162,8 +162,10 @@ def cli_case(arg):
         gitdir = G.write_model(m, os.path.join(d, "repo"))
         names = rng.choice(["full", "full", "hash", "none"])
         roots = []
-        if m.commits and rng.random() < 0.5:
-            roots = [m.commits[0].oid] * rng.randint(1, 2)
+        from .. import oracle as O_
+        rc_ = [o for o in O_.reachable(list(m.refs.values())).values() if o.kind == "commit"]
+        if rc_ and rng.random() < 0.5:
+            roots = [rc_[0].oid] * rng.randint(1, 2)
         sel = rng.choice([[], ["--branches"], ["--tags", "--branches"]]) if roots or rng.random() < 0.5 else []
         argv = ["--json", "--names=" + names] + sel + roots
         r0 = R.sizer(sz, gitdir, argv + ["--no-progress"], tmpdir=d)
@@ -236,6 +238,34 @@ def cli_case(arg):
             out["viol"].append(("unparsable-stderr-with-progress", {"rest": junk[:3]}))
         out["sample"] = {"argv": a2, "final_frames": {k.decode(): v for k, v in finals.items()}, "tick_frames": out["ticks"],
                          "delayed_children": bool(rules)}
+        # failing runs: the frame discipline (nothing for a phase after its final line, counts never decrease) holds on
+        # stderr also when a git child dies before / in the middle of / right after its output
+        for k in range(3):
+            sig = rng.choice(["rev-list", "cat-file --batch-check", "cat-file --batch", "cat-file --batch"])
+            rule = {"sig": sig, "ord": 0, "mode": "fault", "term": rng.choice(["exit:2", "exit:128", "sig:KILL"]),
+                    "after_bytes": rng.choice([0, 41, 300, 1 << 40, 1 << 40])}
+            pdir = os.path.join(d, "fplan%d" % k)
+            fplan = R.make_plan(pdir, [rule])
+            rf = R.sizer(sz, gitdir, argv + ["--progress"], shimdir=shimdir, plan=fplan, tmpdir=d, timeout=30)
+            out["evals"] += 1
+            if rf.timed_out:
+                continue
+            if rf.rc == 0:
+                continue        # (judged by C10)
+            ff, _, _ = P.parse_stderr(rf.err)
+            fdone = set()
+            flast = {}
+            for lab, cnt, spin, term in ff:
+                if lab in fdone:
+                    out["viol"].append(("frame-after-final-line-of-its-phase/failing-run", {"label": lab, "count": cnt, "rule": rule,
+                                                                                           "stderr": rf.err[-400:]}))
+                    break
+                if cnt < flast.get(lab, 0):
+                    out["viol"].append(("count-decreases-within-phase/failing-run", {"label": lab, "rule": rule}))
+                flast[lab] = cnt
+                if term == b"\n":
+                    fdone.add(lab)
+            out["fault_runs"] = out.get("fault_runs", 0) + 1
     finally:
         shutil.rmtree(d, ignore_errors=True)
     return out
@@ -251,6 +281,7 @@ def run(chk, b, tier):
     ticks = 0
     for i, r in enumerate(res):
         chk.count(r["evals"])
+        chk.bump("cli_failing_runs_with_progress_judged", r.get("fault_runs", 0))
         ticks += r["ticks"]
         for clause, det in r["viol"]:
             chk.violation("C18/cli/" + clause, det)
